@@ -179,6 +179,19 @@ def build_cases(T):
         dict(withfile("opts"), **{"out/r.lua": b"old content", "out/other.lua": b"stays"}))
     cli("compile (overwrites existing)", ["-f", "out/in.dsl", "-g", "out"],
         dict(keep, **{"out/in.dsl": u8(T["opts"])}))
+    # ... over existing files that are LONGER than what is written (a stale tail must not survive), in every target's
+    # directory, next to files of other names that must stay
+    stale = b"stale content of an earlier, longer run\n" * 125
+    names = {"lua": ["r.lua"], "rust": ["r.rs", "a.rs", "lib.rs"], "go": ["r.go", "a.go", "r_test.go", "a_test.go"],
+             "java": ["main/java/R.java", "main/java/A.java", "test/java/RTest.java"], "python": ["r.py", "r_test.py"],
+             "cpp": ["include/r.hpp", "test/r_test.cpp"]}
+    pre = {}
+    for l in LANGS:
+        for nm in names[l]:
+            pre["o_%s/%s" % (l, nm)] = stale
+        pre["o_%s/unrelated.txt" % l] = b"stays\n"
+    cli("compile (overwrites longer existing files)", ["-f", "in.dsl"] + sum((["-" + SHORT[l], "o_" + l] for l in LANGS), []),
+        dict(withfile("opts"), **pre))
     # the other texts: panicking generators, diagnostics, syntax errors, empty, missing
     for name in ("small", "ugly", "comment", "empty", "blank"):
         for sub in (("rust",), ("go", "java"), ("rust", "go", "java"), ("lua",), ("rust", "python"), ("rust", "cpp", ),
